@@ -1,5 +1,6 @@
 import NucsProofs.Propagators.Affine
 import NucsProofs.Propagators.AffineLeq
+import NucsProofs.Propagators.AlldifferentReg
 import NucsProofs.Propagators.CountEq
 import NucsProofs.Propagators.Counting
 import NucsProofs.Propagators.Dummy
@@ -23,6 +24,7 @@ theorem C05_and : Sound .and := sound_and
 theorem C05_affineEq : Sound .affineEq := sound_affineEq
 theorem C05_affineGeq : Sound .affineGeq := sound_affineGeq
 theorem C05_affineLeq : Sound .affineLeq := sound_affineLeq
+theorem C05_alldifferent : Sound .alldifferent := sound_alldifferent
 theorem C05_countEq : Sound .countEq := sound_countEq
 theorem C05_dummy : Sound .dummy := sound_dummy
 theorem C05_elementIv : Sound .elementIv := sound_elementIv
@@ -41,7 +43,7 @@ theorem C05_scc : Sound .scc := sound_scc
 
 /-- algorithms for which `Sound` is stated (Spec.lean) but not proved here: validated by the
     correspondence and the brute-force oracle only -/
-def C05_unproved : List Alg := [.alldifferent, .gcc]
+def C05_unproved : List Alg := [.gcc]
 
 /-- non-vacuity: a concrete in-contract, non-empty box on which the call prunes -/
 example : Contract .affineLeq [1, 1, -1, 0] [(2, 5), (2, 5), (0, 10)] ∧
